@@ -234,7 +234,7 @@ Definition vstep_basic (c : vctx) (s : vstate) (b : binstr) (align : N) : option
   | BTick _ => None                   (* PureWasmModuleHandler: ensure!(!TickEnergy) *)
   end.
 
-Definition vop := (opcode * N)%type.
+Notation vop := (opcode * N)%type (only parsing).
 
 Definition vstep (c : vctx) (s : vstate) (o : vop) : option vstate :=
   match fst o with
